@@ -46,10 +46,15 @@ def run(ck, ctx):
                       "itself invalidates it: `ZADD k NX 1 a 2 a` must see the `a` its first pair inserted)")
     ck.nd("equality of every reply and of the keyspace with Redis for all argument values (needs a reference model + execution)")
     ck.nd("option-combination semantics, numeric results")
+    ck.rule("R01.12", "`*` backtracks: in the glob matcher behind KEYS / SCAN MATCH / HSCAN / ZSCAN the star arm tries the rest of the pattern at "
+                      "every remaining offset of the key (a loop from the current offset to key.len() inclusive) and answers true as soon as "
+                      "one offset matches; the result of a recursive call under the star arm is only ever tested, never returned as the "
+                      "answer (committing to one alignment - e.g. the first occurrence of the next literal - rejects `*ab` against `aab`)")
     for cfg in ctx.configs:
         prog = ctx.prog(cfg)
         ck.configs.append(cfg)
         ck.fn_count += len(prog.fns)
+        _r0112(ck, prog, cfg)
         meths = effects.executor_methods(prog)
         _r011(ck, prog, cfg, meths)
         _r012(ck, prog, cfg, meths)
@@ -781,3 +786,74 @@ def _r0111(ck, prog, cfg, meths):
                                "NX/GT/LT filters)" % q, f.where(f.term(sb)["ln"]))
     ck.ok("R01.11", "scan" + _tag(cfg), "%d mutating element loops examined" % n)
     ck.floor("R01.11" + _tag(cfg), n, 5)
+
+
+def _r0112(ck, prog, cfg):
+    gs = [f for f in prog.lib_fns() if f.id == "redis::executor::CommandExecutor::glob_match"]
+    if len(gs) != 1:
+        ck.anchor_lost("R01.12", "CommandExecutor::glob_match not found")
+        return
+    g = gs[0]
+    # the star arm: true edge of `p_char == b'*'`
+    arms = []
+    for b in sorted(g.reachable_blocks()):
+        si = switch_info(g, b)
+        if si and si["kind"] == "val" and si["src"] is not None and si["src"].kind == "rv" and si["src"].rv["k"] == "bin" and si["src"].rv["op"] == "Eq":
+            ops = (si["src"].rv["a"], si["src"].rv["b"])
+            if any("c" in o and o["c"].replace("const ", "") == "42_u8" for o in ops):
+                # only the dispatching test of the *current* pattern byte, pattern[p_idx] with p_idx the parameter itself (a look-ahead
+                # at pattern[p_idx + 1..] - collapsing runs of stars - is not a star arm)
+                cur = False
+                for o in ops:
+                    l = op_local(o)
+                    if l is None:
+                        continue
+                    for hop in range(4):
+                        d = g.defs().get(l, [])
+                        if len(d) != 1 or d[0][2] != "assign" or d[0][3]["k"] != "use":
+                            break
+                        pl = op_place(d[0][3]["a"])
+                        if pl is None:
+                            break
+                        ix = [e["ix"] for e in pl.get("p", []) if isinstance(e, dict) and "ix" in e]
+                        if ix:
+                            s_ix = src_of_operand(g, {"cp": {"l": ix[0]}})
+                            cur = s_ix.kind == "path" and s_ix.local is not None and 1 <= s_ix.local <= g.d["argc"] and not s_ix.fields
+                            break
+                        if pl.get("p"):
+                            break
+                        l = pl["l"]
+                tt, ft = lib2.bool_edges(g, b)
+                if tt is not None and cur:
+                    arms.append((b, tt, ft))
+    if not arms:
+        ck.anchor_lost("R01.12", "glob_match no longer tests a pattern byte against b'*'")
+        return
+    for k, (sb, tt, ft) in enumerate(arms):
+        region = {x for x in g.reachable_blocks() if g.dominates(tt, x)}
+        recs = [(b, t) for b, t in g.calls() if b in region and callee(t) == g.id]
+        # (a) no recursion result is the answer
+        direct = []
+        for b, t in recs:
+            if t.get("dest") == {"l": 0}:
+                direct.append(t["ln"])
+        for b, i, st in g.stmts():
+            if b in region and st["lhs"] == {"l": 0} and st["rv"]["k"] == "use":
+                v = src_of_operand(g, st["rv"]["a"], through_calls=TRANSPARENT)
+                if v.kind == "call" and callee(v.term) == g.id:
+                    direct.append(st["ln"])
+        # (b) a loop over every remaining offset: RangeInclusive(k_idx, key.len()) (or ..key.len()+1) feeding the recursion
+        loop_ok = False
+        for b, t in g.calls():
+            if b in region and is_callee(t, r"RangeInclusive::<usize>::new$"):
+                lo = src_of_operand(g, t["args"][0])
+                hi = src_of_operand(g, t["args"][1])
+                if lo.kind == "path" and lo.local is not None and 1 <= lo.local <= g.d["argc"] and hi.kind == "call" and is_callee(hi.term, r"<impl \[.*\]>::len$"):
+                    loop_ok = True
+        tested = bool(recs) and not direct
+        ck.check(tested and loop_ok, "R01.12", "glob_match:star-arm#%d%s" % (k, _tag(cfg)),
+                 "the `*` arm of glob_match %s: a star must be tried against every remaining offset of the key and only the *test* of each attempt "
+                 "decides - KEYS/SCAN MATCH would drop entries Redis returns"
+                 % ("returns the result of one recursive attempt as its answer (line %s)" % direct[:2] if direct else
+                    ("has no loop from the current offset to key.len() inclusive" if not loop_ok else "makes no recursive attempt")),
+                 g.where(g.term(sb)["ln"]), detail="loop over k_idx..=key.len(), each attempt tested")
